@@ -531,9 +531,12 @@ def check_values(case, io, mos=None):
     shown = {}
     tree = implexpr.parse_expr(case["expr"])
     walrus = {}
+    walrus_hidden = set()
     for e in io["evaluated"]:
         if e["kind"] == "NamedExpr" and not e["in_comp"]:
             walrus[e["text"].lstrip("(").split(":=")[0].strip()] = e["rendered"]
+            if not e["representable"]:
+                walrus_hidden.add(e["text"].lstrip("(").split(":=")[0].strip())
     for key, val in io["entries"]:
         d = norm(key)
         if d is None:
@@ -542,6 +545,10 @@ def check_values(case, io, mos=None):
         shown[d] = val
         is_arg = key.strip() in params or key.strip() in io["args_rendered"]
         if is_arg and io["args_rendered"].get(key.strip()) == val:
+            continue
+        if key.strip() in walrus_hidden and not is_arg and key.strip() not in names:
+            fails.append("%s (the target of an assignment expression bound to a class / function / method / module / builtin) is shown as %s"
+                         % (key.strip(), val[:60]))
             continue
         if key.strip().isidentifier() and key.strip() not in names and key.strip() not in walrus and not is_arg:
             fails.append("%s is shown (as %s), but it is a built-in name - neither an argument nor a closure / global variable" % (key.strip(), val[:60]))
@@ -561,6 +568,9 @@ def check_values(case, io, mos=None):
                     fails.append(f)
                 continue
             fails.append("%s was shown as %s, Python computed %s" % (key, val, cands[0]))
+        elif key.strip() in walrus_hidden:
+            fails.append("%s (the target of an assignment expression bound to a class / function / method / module / builtin) is shown as %s"
+                         % (key.strip(), val[:60]))
         elif key.strip() in walrus and walrus[key.strip()] == val:
             continue            # the target of an evaluated assignment expression, with the value Python bound
         elif is_arg:
@@ -685,6 +695,11 @@ def check_determinism(case, io, mos=None):
     for e in io["evaluated"]:
         ev.setdefault(e["dump"], []).append(e)
     _env, names = names_of(case)
+    for e in io["evaluated"]:
+        if e["kind"] == "NamedExpr" and not e["in_comp"] and not e["representable"]:
+            target = e["text"].lstrip("(").split(":=")[0].strip()
+            if target not in names and any(k.strip() == target for k, _v in io["entries"]):
+                fails.append("%s (the target of an assignment expression bound to a class / function / method / module / builtin) is shown" % target)
     for k, v in io["entries"]:
         d = norm(k)
         if d in ev and v.startswith("False, e.g., with"):
@@ -774,7 +789,7 @@ def _body_of(msg):
     if not isinstance(msg, str):
         return msg
     body = msg.split("\n", 1)[1] if msg.startswith("File ") and "\n" in msg else msg
-    return re.sub(r"^descr \d+: ", "descr: ", body)       # (the harness numbers the descriptions by position in the module)
+    return re.sub(r"^descr \d+( of \{1, 2\} \{\} \{x\})?: ", lambda m_: "descr%s: " % (m_.group(1) or ""), body)       # (the harness numbers the descriptions by position in the module)
 
 
 def check_batchorder(case, io):
